@@ -857,6 +857,10 @@ async fn explore_one(v: &Variant, prefix: &[(u8, u8)], want_trace: bool) -> Exec
     for (i, h) in hs.iter().enumerate() {
         let tid = Tid::H(i as u8);
         match &h.result {
+            None if h.kind == Kind::Dropper => {
+                // never enabled: another task still owns a manager clone (it is stuck, and reported)
+                parts.push(format!("H{i}=not-run"));
+            }
             None => {
                 let at = last_labels.get(&tid).copied().unwrap_or("start");
                 viol(
@@ -956,6 +960,9 @@ async fn explore_one(v: &Variant, prefix: &[(u8, u8)], want_trace: bool) -> Exec
     }
     let herrs: Vec<String> = reg.borrow().iter().map(|h| h.current_error().map(|e| err_class(&e)).unwrap_or_else(|| "-".into())).collect();
     parts.push(format!("workers={started} lookups={fetch_calls} max_inflight={max_inflight} removals={removals} handle_errors=[{}]", herrs.join(",")));
+    if adv_left < v.advances {
+        parts.push("clock_advanced".into());
+    }
     if let Some(o) = orphans_at_drop.filter(|o| *o > 0) {
         parts.push(format!("unindexed_workers_alive_at_drop={o}"));
     }
@@ -1183,7 +1190,7 @@ pub fn run(args: &vpc::Args) -> ! {
             v.bound = b;
         }
     }
-    let budget_s: u64 = get("--budget").and_then(|b| b.parse().ok()).unwrap_or(args.tier.pick(48, 15 * 60));
+    let budget_s: u64 = get("--budget").and_then(|b| b.parse().ok()).unwrap_or(args.tier.pick(55, 20 * 60));
 
     // ---- child: one shard ------------------------------------------------------------------
     if let Some(s) = get("--shard") {
@@ -1228,6 +1235,7 @@ pub fn run(args: &vpc::Args) -> ! {
     let (mut schedules, mut steps, mut points, mut selfchecks) = (0u64, 0u64, 0u64, 0u64);
     let mut all_complete = true;
     let mut by_preemptions: BTreeMap<usize, u64> = BTreeMap::new();
+    let mut stopped_but_alive = 0u64;
     for v in &vars {
         let mut levels = vec![LevelStat { completed: true, ..Default::default() }; v.bound as usize + 1];
         let mut sigs: BTreeMap<String, u64> = BTreeMap::new();
@@ -1257,6 +1265,9 @@ pub fn run(args: &vpc::Args) -> ! {
             *by_preemptions.entry(l).or_default() += st.schedules;
         }
         for (s, n) in &sigs {
+            if s.contains("unindexed_workers_alive_at_drop") {
+                stopped_but_alive += *n;
+            }
             // evidence listing: what every task got and how; worker/handle details stay in the counts
             let coarse = s.split(" max_inflight=").next().unwrap_or(s);
             run.outcome_n(&format!("{}: {coarse}", v.name), *n);
@@ -1362,6 +1373,10 @@ pub fn run(args: &vpc::Args) -> ! {
             "schedules_by_preemption_count": by_preemptions,
             "distinct_outcome_classes_per_driver": classes_json,
             "drivers": per_variant,
+            "observation_outside_the_property": {
+                "schedules_in_which_a_worker_outlived_stop_managing_paths_until_the_manager_was_dropped": stopped_but_alive,
+                "note": "stop_managing_paths() removes the index entry, but scc::HashIndex only marks it removed; PathSetTask::drop (cancel) does not run before the manager is dropped (or the bucket is reused after an epoch change), so the stopped worker keeps running and, when it exits later, its own stop_managing_paths(src,dst) removes whatever newer entry exists for the pair. C20 states no requirement for stop, so this is recorded, not judged."
+            },
             "determinism": {"periodic_re_executions_identical": selfchecks, "demonstration": demo},
             "shards": nshards,
             "shard_wall_s": results.iter().map(|r| (r["wall_s"].as_f64().unwrap_or(0.0) * 10.0).round() / 10.0).collect::<Vec<_>>(),
